@@ -5,7 +5,17 @@ nix_manipulator). Anything outside the fragment is refused with `OutsideFragment
 
     source_code : comments, exactly one expression, comments
     expression  : variable / integer / float / "string" / path leaf, `[ … ]`, `{ … }`, `rec { … }`,
-                  `( comments expr comments )`, `function comments argument` (apply_expression)
+                  `( comments expr comments )`, `function comments argument` (apply_expression),
+                  `with comments environment comments ; comments body` (with_expression),
+                  `assert comments condition comments ; comments body` (assert_expression),
+                  `expression comments . a₁.a₂.….aₙ` (select_expression without `or` default; every
+                  segment an identifier or a "string" without `${…}`; whitespace only between `.` and
+                  the attrpath, nothing at all between the segments and dots of the attrpath),
+                  `name comments : comments body` (function_expression whose argument is ONE identifier;
+                  `{ a, b }: …` and `x@{ … }: …` are refused as "function with formals"),
+                  `! comments operand` / `- comments operand` (unary_expression),
+                  `left comments OP comments right` (binary_expression; OP one of `//` `++` `+` `-` `*` `/`
+                  `==` `!=` `<` `<=` `>` `>=` `&&` `||` `->`; `a ? b` (has_attr_expression) is refused)
     set members : bindings whose attrpath is ONE identifier or "string" (no inherit, no `${…}` name),
                   comments anywhere between the tokens of a binding, none between `rec` and `{`
 
@@ -28,6 +38,8 @@ LEAF_KINDS = {
     "hpath_expression": "p",
     "spath_expression": "p",
 }
+KW_KINDS = {"with_expression": ("with", "environment"), "assert_expression": ("assert", "condition")}
+BIN_OPS = {"//", "++", "+", "-", "*", "/", "==", "!=", "<", "<=", ">", ">=", "&&", "||", "->"}
 WS = set(b" \t\r\n")
 
 
@@ -61,6 +73,12 @@ class _Conv:
     # ------------------------------------------------------------------ tree form
     # cst  : ("l", kind, text) | ("L", items, closeGap) | ("S", rec, recGap, items, closeGap)
     #      | ("P", items, closeGap) | ("A", cst, gc, gap, cst)
+    #      | ("K", isWith, c1, g1, head, c2, g2, c3, g3, body)
+    #      | ("D", cst, c1, g1, gd, [segment text])                gc : [(gap, comment text)]
+    #      | ("O", cst, c1, g1, gd, [segment text], c2, g2, g3, cst)      select with `or` default
+    #      | ("F1", name, c1, g1, c2, g2, body)                    name c1 g1 `:` c2 g2 body
+    #      | ("U", op, c, g, operand)                              op c g operand
+    #      | ("B", l, c1, g1, op, c2, g2, r)                       left c1 g1 op c2 g2 right
     # item : ("c", gap, text) | ("e", gap, cst) | ("b", gap, name, c1, g1, c2, g2, cst, c3, g3)
     def expr(self, n):
         k = LEAF_KINDS.get(n.type)
@@ -147,7 +165,229 @@ class _Conv:
             g = self.gap(pos, arg.start_byte)
             self.rows(prev, arg, g)
             return ("A", f, run, g, self.expr(arg))
+        if n.type in KW_KINDS:
+            return self.keyword(n)
+        if n.type == "select_expression":
+            return self.select(n)
+        if n.type == "function_expression":
+            return self.lam(n)
+        if n.type == "unary_expression":
+            return self.unary(n)
+        if n.type == "binary_expression":
+            return self.binary(n)
         raise OutsideFragment(n.type)
+
+    def binary(self, n):
+        """left c1 g1 operator c2 g2 right — `binary_expression`"""
+        shape = OutsideFragment("binary shape")
+        ch = n.children
+        left, op, right = (n.child_by_field_name(f) for f in ("left", "operator", "right"))
+        if (left is None or op is None or right is None or len(ch) < 3 or ch[0].id != left.id
+                or ch[-1].id != right.id or left.type == "comment" or right.type == "comment"):
+            raise shape
+        if op.child_count != 0 or op.is_named or op.type not in BIN_OPS or self.t(op.start_byte, op.end_byte) != op.type:
+            raise OutsideFragment("binary operator")
+        lhs = self.expr(left)
+        runs = [[], []]  # comments before the operator, before the right operand
+        gaps = [None, None]
+        r = None
+        stage, pos, prev = 0, left.end_byte, left
+        for c in ch[1:]:
+            g = self.gap(pos, c.start_byte)
+            self.rows(prev, c, g)
+            if c.type == "comment":
+                if stage > 1:
+                    raise shape
+                runs[stage].append((g, self.t(c.start_byte, c.end_byte)))
+            elif stage == 0 and c.id == op.id:
+                gaps[0], stage = g, 1
+            elif stage == 1 and c.id == right.id:
+                gaps[1], r, stage = g, self.expr(c), 2
+            else:
+                raise shape
+            pos, prev = c.end_byte, c
+        if stage != 2:
+            raise shape
+        return ("B", lhs, runs[0], gaps[0], op.type, runs[1], gaps[1], r)
+
+    def unary(self, n):
+        """operator c g operand — `unary_expression`"""
+        shape = OutsideFragment("unary shape")
+        ch = n.children
+        if len(ch) < 2 or ch[0].type not in ("!", "-") or ch[0].child_count != 0:
+            raise shape
+        op, operand = ch[0], ch[-1]
+        if operand.type == "comment":
+            raise shape
+        run, pos, prev = [], op.end_byte, op
+        for c in ch[1:-1]:
+            if c.type != "comment":
+                raise shape
+            g = self.gap(pos, c.start_byte)
+            self.rows(prev, c, g)
+            run.append((g, self.t(c.start_byte, c.end_byte)))
+            pos, prev = c.end_byte, c
+        g = self.gap(pos, operand.start_byte)
+        self.rows(prev, operand, g)
+        return ("U", self.t(op.start_byte, op.end_byte), run, g, self.expr(operand))
+
+    def lam(self, n):
+        """name c1 g1 `:` c2 g2 body — a function whose argument is one identifier"""
+        shape = OutsideFragment("function shape")
+        ch = n.children
+        name, body = n.child_by_field_name("universal"), n.child_by_field_name("body")
+        if n.child_by_field_name("formals") is not None or any(c.type in ("formals", "@") for c in ch):
+            raise OutsideFragment("function with formals")
+        if (name is None or body is None or len(ch) < 3 or ch[0].id != name.id or ch[-1].id != body.id
+                or name.type != "identifier" or name.child_count != 0):
+            raise shape
+        runs = [[], []]  # comments before `:`, before the body
+        gaps = [None, None]
+        b = None
+        stage, pos, prev = 0, name.end_byte, name
+        for c in ch[1:]:
+            g = self.gap(pos, c.start_byte)
+            self.rows(prev, c, g)
+            if c.type == "comment":
+                if stage > 1:
+                    raise shape
+                runs[stage].append((g, self.t(c.start_byte, c.end_byte)))
+            elif stage == 0 and c.type == ":":
+                if self.t(c.start_byte, c.end_byte) != ":":
+                    raise shape
+                gaps[0], stage = g, 1
+            elif stage == 1 and c.id == body.id:
+                gaps[1], b, stage = g, self.expr(c), 2
+            else:
+                raise shape
+            pos, prev = c.end_byte, c
+        if stage != 2:
+            raise shape
+        return ("F1", self.t(name.start_byte, name.end_byte), runs[0], gaps[0], runs[1], gaps[1], b)
+
+    def select(self, n):
+        """expression c1 g1 `.` gd a₁ `.` a₂ … `.` aₙ [c2 g2 `or` g3 default]"""
+        ch = n.children
+        base, ap = n.child_by_field_name("expression"), n.child_by_field_name("attrpath")
+        dflt = n.child_by_field_name("default")
+        if base is None or ap is None or len(ch) < 3 or ch[0].id != base.id or ap.type != "attrpath":
+            raise OutsideFragment("select shape")
+        e = self.expr(base)
+        run, pos, prev, dot = [], base.end_byte, base, None
+        k = None
+        for k, c in enumerate(ch[1:], start=1):
+            if c.type == "comment":
+                if dot is not None:
+                    raise OutsideFragment("select shape")   # comment between `.` and the attrpath
+                g = self.gap(pos, c.start_byte)
+                self.rows(prev, c, g)
+                run.append((g, self.t(c.start_byte, c.end_byte)))
+                pos, prev = c.end_byte, c
+            elif c.type == "." and dot is None:
+                g1 = self.gap(pos, c.start_byte)
+                self.rows(prev, c, g1)
+                if self.t(c.start_byte, c.end_byte) != ".":
+                    raise OutsideFragment("select shape")
+                dot, pos, prev = c, c.end_byte, c
+            elif dot is not None and c.id == ap.id:
+                gd = self.gap(pos, c.start_byte)
+                self.rows(prev, c, gd)
+                break
+            else:
+                raise OutsideFragment("select shape")
+        else:
+            raise OutsideFragment("select shape")
+        attrs = self.attrpath(ap)
+        rest = ch[k + 1:]
+        if dflt is None:
+            if rest:
+                raise OutsideFragment("select shape")
+            return ("D", e, run, g1, gd, attrs)
+        # c2 g2 `or` g3 default
+        run2, pos, prev, orn = [], ap.end_byte, ap, None
+        for j, c in enumerate(rest):
+            if c.type == "comment":
+                if orn is not None:
+                    raise OutsideFragment("select shape")   # comment between `or` and the default
+                g = self.gap(pos, c.start_byte)
+                self.rows(prev, c, g)
+                run2.append((g, self.t(c.start_byte, c.end_byte)))
+                pos, prev = c.end_byte, c
+            elif c.type == "or" and orn is None:
+                g2 = self.gap(pos, c.start_byte)
+                self.rows(prev, c, g2)
+                if self.t(c.start_byte, c.end_byte) != "or":
+                    raise OutsideFragment("select shape")
+                orn, pos, prev = c, c.end_byte, c
+            elif orn is not None and c.id == dflt.id and j == len(rest) - 1:
+                g3 = self.gap(pos, c.start_byte)
+                self.rows(prev, c, g3)
+                return ("O", e, run, g1, gd, attrs, run2, g2, g3, self.expr(c))
+            else:
+                raise OutsideFragment("select shape")
+        raise OutsideFragment("select shape")
+
+    def attrpath(self, ap):
+        """segments of the attrpath of a select: `a₁.a₂.….aₙ` with nothing between segments and dots"""
+        shape = OutsideFragment("select attrpath shape")
+        ch = ap.children
+        if len(ch) % 2 != 1:
+            raise shape
+        segs, pos = [], ap.start_byte
+        for i, c in enumerate(ch):
+            if c.start_byte != pos:
+                raise shape   # whitespace (or a comment) inside the attrpath
+            if i % 2 == 1:
+                if c.type != "." or c.end_byte - c.start_byte != 1:
+                    raise shape
+            elif c.type == "identifier":
+                if c.child_count != 0:
+                    raise shape
+                segs.append(self.t(c.start_byte, c.end_byte))
+            elif c.type == "string_expression":
+                if any(x.type in ("interpolation", "comment") for x in _walk(c)):
+                    raise shape
+                segs.append(self.t(c.start_byte, c.end_byte))
+            else:
+                raise shape   # `${…}` segment, comment
+            pos = c.end_byte
+        if pos != ap.end_byte or not segs:
+            raise shape
+        return segs
+
+    def keyword(self, n):
+        """`with` c1 g1 environment c2 g2 `;` c3 g3 body  /  `assert` c1 g1 condition c2 g2 `;` c3 g3 body"""
+        word, head_field = KW_KINDS[n.type]
+        shape = OutsideFragment(word + " shape")
+        ch = n.children
+        head, body = n.child_by_field_name(head_field), n.child_by_field_name("body")
+        if head is None or body is None or len(ch) < 4 or ch[0].type != word or ch[-1].id != body.id:
+            raise shape
+        if self.t(ch[0].start_byte, ch[0].end_byte) != word:
+            raise shape
+        runs = [[], [], []]  # comments before the head, before `;`, before the body
+        gaps = [None, None, None]
+        parts = [None, None]
+        stage, pos, prev = 0, ch[0].end_byte, ch[0]
+        for c in ch[1:]:
+            g = self.gap(pos, c.start_byte)
+            self.rows(prev, c, g)
+            if c.type == "comment":
+                if stage > 2:
+                    raise shape
+                runs[stage].append((g, self.t(c.start_byte, c.end_byte)))
+            elif stage == 0 and c.id == head.id:
+                gaps[0], parts[0], stage = g, self.expr(c), 1
+            elif stage == 1 and c.type == ";":
+                gaps[1], stage = g, 2
+            elif stage == 2 and c.id == body.id:
+                gaps[2], parts[1], stage = g, self.expr(c), 3
+            else:
+                raise shape
+            pos, prev = c.end_byte, c
+        if stage != 3:
+            raise shape
+        return ("K", word == "with", runs[0], gaps[0], parts[0], runs[1], gaps[1], runs[2], gaps[2], parts[1])
 
     def binding(self, g, n):
         ch = n.children
@@ -221,6 +461,23 @@ def flatten(x) -> str:
         return "(" + "".join(flatten(i) for i in x[1]) + x[2] + ")"
     if k == "A":
         return flatten(x[1]) + "".join(g + c for g, c in x[2]) + x[3] + flatten(x[4])
+    if k == "K":
+        gc = lambda r: "".join(g + c for g, c in r)  # noqa: E731
+        return (("with" if x[1] else "assert") + gc(x[2]) + x[3] + flatten(x[4]) + gc(x[5]) + x[6] + ";"
+                + gc(x[7]) + x[8] + flatten(x[9]))
+    if k == "D":
+        return flatten(x[1]) + "".join(g + c for g, c in x[2]) + x[3] + "." + x[4] + ".".join(x[5])
+    if k == "O":
+        return (flatten(x[1]) + "".join(g + c for g, c in x[2]) + x[3] + "." + x[4] + ".".join(x[5])
+                + "".join(g + c for g, c in x[6]) + x[7] + "or" + x[8] + flatten(x[9]))
+    if k == "F1":
+        gc = lambda r: "".join(g + c for g, c in r)  # noqa: E731
+        return x[1] + gc(x[2]) + x[3] + ":" + gc(x[4]) + x[5] + flatten(x[6])
+    if k == "U":
+        return x[1] + "".join(g + c for g, c in x[2]) + x[3] + flatten(x[4])
+    if k == "B":
+        gc = lambda r: "".join(g + c for g, c in r)  # noqa: E731
+        return flatten(x[1]) + gc(x[2]) + x[3] + x[4] + gc(x[5]) + x[6] + flatten(x[7])
     if k == "c":
         return x[1] + x[2]
     if k == "e":
@@ -245,6 +502,23 @@ def sexp(x):
         return ["P", [sexp(i) for i in x[1]], hx(x[2])]
     if k == "A":
         return ["A", sexp(x[1]), [[hx(g), hx(c)] for g, c in x[2]], hx(x[3]), sexp(x[4])]
+    if k == "K":
+        gc = lambda r: [[hx(g), hx(c)] for g, c in r]  # noqa: E731
+        return ["K", "w" if x[1] else "a", gc(x[2]), hx(x[3]), sexp(x[4]), gc(x[5]), hx(x[6]), gc(x[7]), hx(x[8]),
+                sexp(x[9])]
+    if k == "D":
+        return ["D", sexp(x[1]), [[hx(g), hx(c)] for g, c in x[2]], hx(x[3]), hx(x[4]), [hx(a) for a in x[5]]]
+    if k == "O":
+        return ["O", sexp(x[1]), [[hx(g), hx(c)] for g, c in x[2]], hx(x[3]), hx(x[4]), [hx(a) for a in x[5]],
+                [[hx(g), hx(c)] for g, c in x[6]], hx(x[7]), hx(x[8]), sexp(x[9])]
+    if k == "F1":
+        gc = lambda r: [[hx(g), hx(c)] for g, c in r]  # noqa: E731
+        return ["F1", hx(x[1]), gc(x[2]), hx(x[3]), gc(x[4]), hx(x[5]), sexp(x[6])]
+    if k == "U":
+        return ["U", hx(x[1]), [[hx(g), hx(c)] for g, c in x[2]], hx(x[3]), sexp(x[4])]
+    if k == "B":
+        gc = lambda r: [[hx(g), hx(c)] for g, c in r]  # noqa: E731
+        return ["B", sexp(x[1]), gc(x[2]), hx(x[3]), hx(x[4]), gc(x[5]), hx(x[6]), sexp(x[7])]
     if k == "c":
         return ["c", hx(x[1]), hx(x[2])]
     if k == "e":
@@ -270,6 +544,18 @@ def code_tokens(x) -> list[str]:
         return ["("] + [t for i in x[1] for t in code_tokens(i)] + [")"]
     if k == "A":
         return code_tokens(x[1]) + code_tokens(x[4])
+    if k == "K":
+        return ["with" if x[1] else "assert"] + code_tokens(x[4]) + [";"] + code_tokens(x[9])
+    if k == "D":
+        return code_tokens(x[1]) + [t for a in x[5] for t in (".", a)]
+    if k == "O":
+        return code_tokens(x[1]) + [t for a in x[5] for t in (".", a)] + ["or"] + code_tokens(x[9])
+    if k == "F1":
+        return [x[1], ":"] + code_tokens(x[6])
+    if k == "U":
+        return [x[1]] + code_tokens(x[4])
+    if k == "B":
+        return code_tokens(x[1]) + [x[4]] + code_tokens(x[7])
     if k == "c":
         return []
     if k == "e":
